@@ -199,7 +199,7 @@ func (c02) Exec(seed int64, i int, tier string) Record {
 	if i < len(enum) {
 		s, gen = enum[i], c02SectionOf(i)
 	} else {
-		switch r.Weighted([]int{12, 34, 22, 14, 8, 10}) {
+		switch r.Weighted([]int{12, 34, 22, 14, 8, 10, 3}) {
 		case 0:
 			s, _, _ = c02GenValid(r)
 			gen = "valid"
@@ -213,6 +213,8 @@ func (c02) Exec(seed int64, i int, tier string) Record {
 			s, gen = c02GenNest(r), "nest"
 		case 5:
 			s, gen = c02GenNumber(r), "number"
+		case 6:
+			s, gen = c02GenLong(r)
 		}
 	}
 	rec := Record{Text: s, Tags: []string{"gen:" + gen}, Info: map[string]interface{}{}}
@@ -320,7 +322,7 @@ func (c02) Exec(seed int64, i int, tier string) Record {
 // as a finding of class "hang"; the worker process is then given up (Record.Poison), because a lock
 // of the library is presumably still held.
 const c02NestedLimit = 3 * time.Second
-const c02NestedGrace = 3 * time.Second
+const c02NestedGrace = 12 * time.Second // a deadlock never returns; a loaded machine does, late
 
 var c02NestedPaths = []string{"$.a.look()", "$[*].look()", "$..a.look()", "$.b[?(@.a.look() == 1)]", "$.b[?(@.a.look())].a", "$.*.lookAll()", "$..a.lookAll()",
 	"$[?(@.lookAll() > 1)]", "$.a.a.look().twice()", "$.b[*].a.look().lookAll()", "$[?(@.a == $[0].a.look())]", "$.b[?(@.b.look() || @.a.look() > 1)]", "$.a.b.lookAll().look()"}
